@@ -6,7 +6,10 @@
 //! a per-instruction mix, and with the other operand KIND (trace op number <-> trace op
 //! Trace::constant(number), number.pow(trace) <-> Trace::constant(number).pow(trace), Sum <-> fold
 //! of +); additionally through Trace::derivative(closure, x) and, in reverse mode, through Record
-//! (derivatives().at(seeded variable)).  All must agree; printed once: ((number derivative) ...)
+//! (derivatives().at(seeded variable)); a program with a Sum instruction also with the summed traces
+//! handed to `impl Sum for Trace` through iterators of every other SHAPE (prog.rs `sum_shaped`:
+//! unknown lower bound, from_fn, chain, flat_map, not fused, by &mut, lying size hints;
+//! `inconsistent 600+shape`).  All must agree; printed once: ((number derivative) ...)
 use crate::num::Enc;
 use crate::sx::*;
 use crate::with_ty;
@@ -65,6 +68,20 @@ where
         }
     }
     let canonical = canonical.unwrap();
+    // every Sum instruction again with its items handed to `impl Sum for Trace` through every other
+    // iterator SHAPE (prog.rs `sum_shaped`), in ownership form shape % 5
+    if has_sum(&prog) {
+        for shape in 1..SUM_SHAPES {
+            let nodes = run_traces_shaped::<T>(&prog, seed, Trace::variable(x0.clone()), shape % 5, shape);
+            if !nodes.iter().zip(plain.iter()).all(|(t, p)| t.number == *p) {
+                return inconsistent(650 + shape as i64);
+            }
+            let obs: Vec<(T, T)> = outs.iter().map(|&o| (nodes[o].number.clone(), nodes[o].derivative.clone())).collect();
+            if obs != canonical {
+                return inconsistent(600 + shape as i64);
+            }
+        }
+    }
     // Trace::derivative(function, x)
     for (i, &o) in outs.iter().enumerate() {
         let d = Trace::derivative(|x| run_traces::<T>(&prog, seed, x, 0)[o].clone(), x0.clone());
